@@ -25,7 +25,7 @@ THEOREMS = ['C18_flat', 'C18_characterisation', 'C18_root', 'C18_wording', 'C18_
 
 def gen(rng, i, tier):
     c = hsm.gen_case(rng, p_final_compound=(0.5 if i % 5 == 4 else 0.0), p_enum=0.15, p_reuse=0.25,
-                      p_parallel=(0.7 if i % 4 == 1 else 0.3))
+                      p_parallel=(0.7 if i % 4 == 1 else 0.3), max_depth=(4 if i % 6 == 3 else 3), p_build=0.2, p_sep=0.1)
     cb = [0]
     for p, d in hsm.all_defs(c['machine']):
         for key in ('enter', 'onfinal'):
